@@ -125,6 +125,16 @@ class CallMixin:
             return [(st, Val(f"({self.declare_fun('obj_vars', ['V'], 'V')} {asV(v)})", kind="dict", origin=(f"{v.origin}.__dict__" if v.origin else None)))]
         if v.kind in ("list", "dict", "str", "set", "tuple") and v.cls is None:
             return [(st, BM(v, name))]
+        if v.kind == "cls" and v.cls is None:
+            # attribute of a *symbolic* class: a computed property of the metaclass ObjectMeta dispatches through its
+            # caller's-view contract, provided the class is provably a model class here
+            from statham.schema.elements.meta import ObjectMeta as _OM
+            d = _static(_OM, name)
+            if isinstance(d, property) and lookup(key_of_function(d.fget), None) is not None:
+                g = f"(= (meta_of (cid {asV(v)})) {self.ctab.cid(_OM)})"
+                self.obl("kind", node, st, g, detail=f"receiver of .{name} is a model class (metaclass ObjectMeta)")
+                st.assume(g, fact=True)
+                return self.call_function(st, d.fget, [v], {}, node, selfcls=None)
         if name == "__name__" and v.kind == "cls":
             # every class has a name: a function of the class
             return [(st, Val(f"({self.declare_fun('cls_name', ['Int'], 'String')} (cid {asV(v)}))", "S"))]
